@@ -1,0 +1,46 @@
+//go:build verif
+
+package linux
+
+// Exports for the verification harness of property C20. Added file only.
+
+import (
+	"fmt"
+	"sort"
+	"strings"
+)
+
+// VerifC20Parse calls ParseConfig and dumps routes, chains and rules.
+// Of each rule the original line, the append flag and the sorted keys of
+// its options are shown.
+func VerifC20Parse(data []byte) []string {
+	s := &State{}
+	c, _ := s.ParseConfig(data, "router")
+	cf := c.(*config)
+	var dump []string
+	for _, r := range cf.routes {
+		dump = append(dump,
+			fmt.Sprintf("route|%s|%d|%s|%s", r.ip, r.prefix, r.hop, r.orig))
+	}
+	var tl []string
+	for tName, cMap := range cf.iptables {
+		var cl []string
+		for cName, ch := range cMap {
+			e := fmt.Sprintf("chain|%s|%s|%s", tName, cName, ch.policy)
+			for _, ru := range ch.rules {
+				var keys []string
+				for k := range ru.pairs {
+					keys = append(keys, k)
+				}
+				sort.Strings(keys)
+				e += fmt.Sprintf("\nrule|%v|%s|%s",
+					ru.append, ru.orig, strings.Join(keys, ","))
+			}
+			cl = append(cl, e)
+		}
+		sort.Strings(cl)
+		tl = append(tl, "table|"+tName+"\n"+strings.Join(cl, "\n"))
+	}
+	sort.Strings(tl)
+	return append(dump, tl...)
+}
